@@ -23,6 +23,7 @@ import (
 	standardlister "github.com/attestantio/dirk/services/lister/standard"
 	syncmaplocker "github.com/attestantio/dirk/services/locker/syncmap"
 	"github.com/attestantio/dirk/services/process"
+	"github.com/attestantio/dirk/services/ruler"
 	goruler "github.com/attestantio/dirk/services/ruler/golang"
 	standardsigner "github.com/attestantio/dirk/services/signer/standard"
 	"github.com/attestantio/dirk/services/unlocker"
@@ -224,6 +225,7 @@ type Stack struct {
 	AcctH    *accountmanagerhandler.Handler
 	WalletH  *walletmanagerhandler.Handler
 	Lister   *standardlister.Service
+	Ruler    ruler.Service
 	cancel   context.CancelFunc
 	StoreDir string
 }
@@ -248,6 +250,7 @@ func NewStack(ctx context.Context, b *Base, dir string, proc process.Service) (*
 		return nil, err
 	}
 	rw := &rulerW{in: rl, c: b.Ctl, g: b.g}
+	st.Ruler = rw
 	sg, err := standardsigner.New(sctx, standardsigner.WithUnlocker(b.Unlocker), standardsigner.WithChecker(b.Checker),
 		standardsigner.WithFetcher(b.Fetcher), standardsigner.WithRuler(rw))
 	if err != nil {
